@@ -107,6 +107,51 @@ theorem readLoop_spec (r : Reader) (wf : WF r) : ∀ (fuel : Nat) (st : RState) 
       rw [hpiece, hpos2, Nat.add_mul]
       conv => rhs; rw [hsplit, slice_append]
 
+/-- any request of `m` whole frames, also one that runs past `frames` (and `frames` need not be a whole number of
+    blocks): the call delivers `t` frames of the stream with `min m (frames − pos) ≤ t ≤ m` (it stops at the first
+    block boundary at or after `frames`), and zero-fills the rest of the request -/
+theorem readLoop_general (r : Reader) (wf : WF r) : ∀ (fuel : Nat) (st : RState) (m : Nat), Inv r st → m < fuel →
+    ∃ t st', t ≤ m ∧ min m (r.frames - r.pos st) ≤ t ∧
+      r.readLoop fuel st (m * r.ch) = (st', r.slice (r.pos st * r.ch) (t * r.ch) ++ zeros ((m - t) * r.ch), t * r.ch) ∧
+      Inv r st' ∧ r.pos st' = r.pos st + t := by
+  intro fuel
+  induction fuel with
+  | zero => intro st m _ h; omega
+  | succ fuel ih =>
+    intro st m inv hf
+    unfold Reader.readLoop
+    by_cases hm : m = 0
+    · subst hm
+      refine ⟨0, st, Nat.le_refl _, by omega, ?_, inv, rfl⟩
+      simp [slice_zero, zeros]
+    · have hmc : m * r.ch ≠ 0 := Nat.mul_ne_zero hm (Nat.pos_iff_ne_zero.mp wf.ch_pos)
+      by_cases hend : r.pos st ≥ r.frames
+      · refine ⟨0, st, Nat.zero_le _, by omega, ?_, inv, rfl⟩
+        simp only [hmc, hend, if_false, if_true, Nat.zero_mul, slice_zero, List.nil_append, Nat.sub_zero]
+      · simp only [hmc, hend, if_false]
+        obtain ⟨inv1, hpos1, hcnt1⟩ := reload_spec r st inv (Or.inr trivial)
+        have hcnt1 : (r.reload st).cnt < r.spb := by
+          cases hcnt1 with
+          | inl h => exact h
+          | inr h => have := wf.spb_pos; omega
+        generalize hst1 : r.reload st = st1 at inv1 hpos1 hcnt1
+        have hcount : min ((r.spb - st1.cnt) * r.ch) (m * r.ch) = min (r.spb - st1.cnt) m * r.ch :=
+          Nat.mul_min_mul_right _ _ _
+        generalize hc : min (r.spb - st1.cnt) m = c at hcount
+        have hc1 : 1 ≤ c := by omega
+        have hc2 : st1.cnt + c ≤ r.spb := by omega
+        have hc3 : c ≤ m := by omega
+        rw [hcount, Nat.mul_div_cancel c wf.ch_pos, ← Nat.sub_mul]
+        have inv2 : Inv r ⟨st1.cur, st1.cnt + c, st1.buf⟩ := ⟨inv1.buf, hc2⟩
+        have hpos2 : r.pos ⟨st1.cur, st1.cnt + c, st1.buf⟩ = r.pos st + c := by
+          rw [← hpos1]; simp only [Reader.pos]; omega
+        obtain ⟨t', st', ht1, ht2, hrec, inv', hpos'⟩ := ih ⟨st1.cur, st1.cnt + c, st1.buf⟩ (m - c) inv2 (by omega)
+        rw [hrec]
+        refine ⟨c + t', st', by omega, by rw [hpos2] at ht2; omega, ?_, inv', by rw [hpos', hpos2]; omega⟩
+        have hpiece : (st1.buf.drop (st1.cnt * r.ch)).take (c * r.ch) = r.slice (r.pos st * r.ch) (c * r.ch) := by
+          rw [inv1.buf, chunk_eq r wf st1.cur st1.cnt c hc2, ← hpos1]; rfl
+        rw [hpiece, hpos2, Nat.add_mul, Nat.add_mul c t', slice_append, Nat.sub_sub, List.append_assoc]
+
 /-- at or after the end of the data an inner call delivers nothing and zero-fills the request -/
 theorem readLoop_eof (r : Reader) (fuel : Nat) (st : RState) (n : Nat) (hn : n ≠ 0) (h : r.pos st ≥ r.frames) :
     r.readLoop (fuel + 1) st n = (st, zeros n, 0) := by
